@@ -2339,16 +2339,33 @@ func runC10(run *Run, rng *Rng, tier string) error {
 			}
 			c.Sel = &s
 		} else {
+			// by name: prefer a resource that carries previous ids (a patch may name the ORIGINAL id)
+			withPrev := []c10Res{}
+			for _, y := range l {
+				if len(y.Prev) > 0 {
+					withPrev = append(withPrev, y)
+				}
+			}
+			usePrev := false
+			if len(withPrev) > 0 && g.Chance(45) {
+				x = withPrev[g.Intn(len(withPrev))]
+				usePrev = g.Chance(75)
+			}
 			id := c10Id{Kind: x.Kind, Name: x.Name, Namespace: x.Namespace}
 			if i := strings.Index(x.APIVersion, "/"); i > 0 {
 				id.Group, id.Version = x.APIVersion[:i], x.APIVersion[i+1:]
 			} else {
 				id.Version = x.APIVersion
 			}
-			switch g.Intn(8) {
+			k := g.Intn(8)
+			if usePrev {
+				k = 0
+			}
+			switch k {
 			case 0:
 				if len(x.Prev) > 0 { // a previous id of the resource
-					id.Name, id.Namespace, id.Kind = x.Prev[0][0], x.Prev[0][1], x.Prev[0][2]
+					pi := g.Intn(len(x.Prev))
+					id.Name, id.Namespace, id.Kind = x.Prev[pi][0], x.Prev[pi][1], x.Prev[pi][2]
 				}
 			case 1:
 				id.Name = c10PickN(g, c10Names) // possibly another / no resource
